@@ -1,5 +1,325 @@
-"""element-level harnesses shared by C01/C02 (to be filled)"""
+"""element-level inductive-step harnesses (real element __call__) shared by C01, C02, C04, C05, C06.
+
+Each harness starts from an arbitrary SpectralInformation satisfying the invariant I, calls the real element once and
+states the obligations selected by `props` (a set of property ids)."""
+import math
+import numpy as np
+
+from harness.common import *      # noqa
+from harness import common
+from symx.core import approx, approx_db
+
+setup = common.setup
+
+BAUDS = [32e9, 64e9, 42e9, 32e9]
+SLOTS = [50e9, 75e9, 50e9, 37.5e9]
+FREQS = [193.0e12, 193.1e12, 193.2e12, 193.3e12]
+
+
+def lin(ctx, x_db):
+    """10**(x/10) in either mode"""
+    return 10 ** (x_db / 10)
+
+
+def log10(ctx, x):
+    return x.log10() if is_symbolic(x) else math.log10(x)
+
+
+# ------------------------------------------------------------------------------------------------------------ ROADM
+
+def h_roadm(ctx, policy, override, k, props, sym_maxloss=True):
+    """real Roadm.__call__ with node policy in {pch, psd, psw} and optional per-degree override"""
+    from gnpy.core.elements import Roadm
+    from gnpy.core.info import ReferenceCarrier
+    symbolic_ctors(ctx)
+    params = {'add_drop_osnr': 38, 'pmd': 0, 'pdl': 0, 'restrictions': {'preamp_variety_list': [], 'booster_variety_list': []}}
+    # node-level target
+    if policy == 'pch':
+        t_node_lin = ctx.pos_real('node_target_mw')                  # target power in mW
+        params['target_pch_out_db'] = 10 * log10(ctx, t_node_lin)    # dBm
+    elif policy == 'psd':
+        t_node_lin = ctx.pos_real('node_psd')                        # mW/GHz
+        params['target_psd_out_mWperGHz'] = t_node_lin
+    else:
+        t_node_lin = ctx.pos_real('node_psw')
+        params['target_out_mWperSlotWidth'] = t_node_lin
+    pol, tval = policy, t_node_lin
+    if override != 'none':
+        tval = ctx.pos_real('deg_target')
+        pol = override
+        if override == 'pch':
+            params['per_degree_pch_out_db'] = {'east': 10 * log10(ctx, tval)}
+        elif override == 'psd':
+            params['per_degree_psd_out_mWperGHz'] = {'east': tval}
+        else:
+            params['per_degree_psd_out_mWperSlotWidth'] = {'east': tval}
+    # internal path impairments: symbolic max loss (dB >= 0) per frequency band (two bands when k >= 2, so that
+    # channels of one crossing see different path losses), pmd, pdl
+    nb = 2 if (k >= 2 and sym_maxloss) else 1
+    maxloss_band = [ctx.real(f'maxloss_lin{b}', lo=1) if sym_maxloss else 1.0 for b in range(nb)]
+    pmd_imp = ctx.real('roadm_pmd', lo=0)
+    pdl_imp = ctx.real('roadm_pdl', lo=0)
+    split = FREQS[(k + 1) // 2 - 1] + 40e9        # band edge between channel (k+1)//2 - 1 and the next one
+    ranges = [(191.0e12, split), (split, 196.5e12)] if nb == 2 else [(191.0e12, 196.5e12)]
+    params['roadm-path-impairments'] = [{
+        'roadm-path-impairments-id': 0,
+        'roadm-express-path': [{'frequency-range': {'lower-frequency': lo_, 'upper-frequency': hi_},
+                                'roadm-maxloss': (10 * log10(ctx, maxloss_band[b]) if sym_maxloss else 0.0),
+                                'roadm-pmd': pmd_imp, 'roadm-pdl': pdl_imp}
+                               for b, (lo_, hi_) in enumerate(ranges)]}]
+    maxloss_ch = [maxloss_band[0 if FREQS[i] < split or nb == 1 else 1] for i in range(k)]
+    roadm = Roadm(uid='roadm', params=params)
+    roadm.set_roadm_paths(from_degree='west', to_degree='east', path_type='express', impairment_id=0)
+    roadm.ref_carrier = ReferenceCarrier(baud_rate=32e9, slot_width=50e9)
+    ref_in_lin = ctx.pos_real('ref_pch_in_mw')
+    roadm.ref_pch_in_dbm = {'west': 10 * log10(ctx, ref_in_lin)}
+    # offsets per channel
+    off_lin = [ctx.pos_real(f'offset{i}') for i in range(k)]
+    off_db = [10 * log10(ctx, x) for x in off_lin]
+    pmd0 = [ctx.real(f'pmd_in{i}', lo=0) for i in range(k)]
+    si = make_si(ctx, k, freqs=FREQS[:k], baud_list=BAUDS[:k], slot_list=SLOTS[:k], delta_pdb=off_db,
+                 extra=dict(pmd=arr(pmd0), pdl=arr(pmd0), chromatic_dispersion=arr([1e-3 * (i + 1) for i in range(k)])))
+    pre = snap(si)
+    cd0 = list(si.chromatic_dispersion)
+    out = roadm(si, degree='east', from_degree='west')
+    ctx.prove('roadm:same_object_returned', out is si)
+    for i in range(k):
+        # target per channel in W
+        if pol == 'pch':
+            target_w = tval * 1e-3
+        elif pol == 'psd':
+            target_w = tval * (BAUDS[i] * 1e-9) * 1e-3
+        else:
+            target_w = tval * (SLOTS[i] * 1e-9) * 1e-3
+        want = target_w * off_lin[i]
+        avail = pre['p'][i] / maxloss_ch[i]
+        expected = want if bool(want <= avail) else avail      # exact comparison: oracle decision, not an obligation
+        if 'C06' in props:
+            ctx.prove(f'roadm:{policy}/{override}:pout=min(target+offset,pin-loss)[{i}]', approx(si._pch[i], expected, 1e-11))
+            ctx.prove(f'roadm:never_amplifies[{i}]', le(si._pch[i], pre['p'][i]))
+            ctx.prove(f'roadm:reported_pch_out_dbm[{i}]', approx_db(roadm.pch_out_dbm[i], 10 * log10(ctx, si._pch[i] * 1e3)))
+            ctx.prove(f'roadm:reported_loss[{i}]', approx_db(roadm.loss_pch_db[i],
+                                                           10 * log10(ctx, pre['p'][i]) - 10 * log10(ctx, si._pch[i])))
+        if 'C05' in props:
+            ctx.prove(f'roadm:pmd_quadrature[{i}]', eq(si.pmd[i] ** 2, pmd0[i] ** 2 + pmd_imp ** 2))
+            ctx.prove(f'roadm:pdl_quadrature[{i}]', eq(si.pdl[i] ** 2, pmd0[i] ** 2 + pdl_imp ** 2))
+            ctx.prove(f'roadm:cd_untouched[{i}]', si.chromatic_dispersion[i] == cd0[i])
+    if 'C01' in props:
+        c01_obligations(ctx, si, 'roadm')
+    if 'C02' in props:
+        c02_obligations(ctx, pre, si, 'roadm', 'passive')
+
+
+# ------------------------------------------------------------------------------------------------------------ Fused
+
+def h_fused(ctx, k, props):
+    from gnpy.core.elements import Fused
+    symbolic_ctors(ctx)
+    loss_lin = ctx.real('loss_lin', lo=1)
+    fused = Fused(uid='fused', params={'loss': 10 * log10(ctx, loss_lin)})
+    si = make_si(ctx, k)
+    pre = snap(si)
+    out = fused(si)
+    ctx.prove('fused:same_object_returned', out is si)
+    for i in range(k):
+        ctx.prove(f'fused:attenuated_by_loss[{i}]', eq(si._pch[i] * loss_lin, pre['p'][i]))
+    if 'C01' in props:
+        c01_obligations(ctx, si, 'fused')
+    if 'C02' in props:
+        c02_obligations(ctx, pre, si, 'fused', 'passive')
 
 
 def jobs_c01(tier):
-    return []
+    ks = [1, 2, 3] if tier == 'quick' else [1, 2, 3, 4]
+    js = []
+    for k in ks[1:]:
+        for pol, ov in (('pch', 'none'), ('psd', 'pch'), ('psw', 'psd')):
+            js.append(dict(name=f'H1b:roadm:{pol}/{ov}:k{k}', module='harness.elems', fn='h_roadm',
+                           params=dict(policy=pol, override=ov, k=k, props=('C01',)), cost=2 ** k))
+    for k in ks:
+        js.append(dict(name=f'H1b:fused:k{k}', module='harness.elems', fn='h_fused', params=dict(k=k, props=('C01',))))
+    for k in ks:
+        for var in (['ssmf80', 'nzdf120_lumped'] if tier == 'quick' else list(FIBER_VARIANTS)):
+            js.append(dict(name=f'H1b:fiber:{var}:k{k}', module='harness.elems', fn='h_fiber',
+                           params=dict(variant=var, k=k, props=('C01',)), cost=3 ** k))
+    for var in EDFA_QUICK:
+        for k in ks[1:]:
+            js.append(dict(name=f'H1b:edfa:{var}:k{k}', module='harness.elems', fn='h_edfa',
+                           params=dict(variety=var, k=k, props=('C01',)), cost=4 ** k))
+    return js
+
+
+# ------------------------------------------------------------------------------------------------------------ Fiber
+
+FIBER_VARIANTS = {
+    'ssmf80': dict(type_variety='SSMF', length=80.0, loss_coef=0.2, lumped=[]),
+    'nzdf120_lumped': dict(type_variety='NZDF', length=120.0, loss_coef=0.22,
+                           lumped=[{'position': 40.0, 'loss': 0.5}, {'position': 90.0, 'loss': 1.5}]),
+    'ssmf5': dict(type_variety='SSMF', length=5.0, loss_coef=0.25, lumped=[{'position': 2.0, 'loss': 2.0}]),
+}
+
+
+def set_sim_params(nli_method='gn_model_analytic', raman=False):
+    from gnpy.core.parameters import SimParams
+    SimParams.set_params({'raman_params': {'flag': raman, 'result_spatial_resolution': 10e3,
+                                           'solver_spatial_resolution': 50},
+                          'nli_params': {'method': nli_method, 'dispersion_tolerance': 1, 'phase_shift_tolerance': 0.1,
+                                         'computed_channels': None, 'computed_number_of_channels': None}})
+
+
+def h_fiber(ctx, variant, k, props, pmax=0.01, nli_method='gn_model_analytic'):
+    """real Fiber.__call__ (Raman flag off) on a concrete fibre with symbolic pads/connectors, powers and splits"""
+    symbolic_ctors(ctx)
+    set_sim_params(nli_method)
+    v = FIBER_VARIANTS[variant]
+    att_in_lin = ctx.real('att_in_lin', lo=1)
+    con_in_lin = ctx.real('con_in_lin', lo=1)
+    con_out_lin = ctx.real('con_out_lin', lo=1)
+    att_in, con_in, con_out = (10 * log10(ctx, x) for x in (att_in_lin, con_in_lin, con_out_lin))
+    _, els = build_elements([{'uid': 'fiber', 'type': 'Fiber', 'type_variety': v['type_variety'],
+                              'params': {'length': v['length'], 'length_units': 'km', 'loss_coef': v['loss_coef'],
+                                         'att_in': 0, 'con_in': 0, 'con_out': 0, 'lumped_losses': v['lumped']}}])
+    fiber = els['fiber']
+    fiber.params.att_in, fiber.params.con_in, fiber.params.con_out = att_in, con_in, con_out
+    fiber.ref_pch_in_dbm = 0.0
+    cd0 = [ctx.real(f'cd_in{i}', lo=0) for i in range(k)]
+    pmd0 = [ctx.real(f'pmd_in{i}', lo=0) for i in range(k)]
+    lat0 = [ctx.real(f'lat_in{i}', lo=0) for i in range(k)]
+    si = make_si(ctx, k, pmax=pmax, extra=dict(chromatic_dispersion=arr(cd0), pmd=arr(pmd0), latency=arr(lat0)))
+    pre = snap(si)
+    # Fiber.__call__ rounds the total loss for a display attribute (round(pout - pin, 2)): irrelevant to the property,
+    # call propagate (the body of __call__ apart from that attribute)
+    fiber.propagate(si)
+    # independent oracle for the span budget in dB (concrete part) and linear (symbolic part)
+    fibre_db = v['loss_coef'] * v['length'] + sum(x['loss'] for x in v['lumped'])
+    fibre_lin = 10 ** (fibre_db / 10)
+    for i in range(k):
+        if 'C05' in props:
+            ctx.prove(f'fiber:loss_budget[{i}]',
+                      approx(si._pch[i] * att_in_lin * con_in_lin * con_out_lin * fibre_lin, pre['p'][i], 1e-9))
+            ctx.prove(f'fiber:cd_additive[{i}]', approx(si.chromatic_dispersion[i] - cd0[i],
+                                                       float(fiber.chromatic_dispersion(pre['f'][i])), 1e-12))
+            ctx.prove(f'fiber:latency_additive[{i}]', approx(si.latency[i] - lat0[i], v['length'] * 1e3 * 1.468 / 299792458.0, 1e-12))
+            ctx.prove(f'fiber:pmd_quadrature[{i}]', approx(si.pmd[i] ** 2 - pmd0[i] ** 2,
+                                                         float(fiber.params.pmd_coef) ** 2 * v['length'] * 1e3, 1e-9))
+    if 'C05' in props:
+        ctx.prove('fiber:loss_property', approx_db(fiber.loss, att_in + con_in + con_out + fibre_db, 1e-9))
+    if 'C01' in props:
+        c01_obligations(ctx, si, 'fiber')
+    if 'C02' in props:
+        c02_obligations(ctx, pre, si, 'fiber', 'fiber')
+
+
+# ------------------------------------------------------------------------------------------------------------- Edfa
+
+H_PLANCK = 6.62607015e-34
+
+
+def h_edfa(ctx, variety, k, props, sym_pmax=False, oob=False, sym_invoa=False, eqpt_name='eqpt_config.json'):
+    """real Edfa.__call__ (flat profile: tilt 0, no ripple) with symbolic set gain, VOAs, input powers and splits"""
+    symbolic_ctors(ctx)
+    eqpt = equipment(eqpt_name)
+    _, els = build_elements([{'uid': 'amp', 'type': 'Edfa', 'type_variety': variety,
+                              'operational': {'gain_target': 20.0, 'tilt_target': 0, 'out_voa': 0.0}}], eqpt)
+    amp = els['amp']
+    g_lin = ctx.real('gain_lin', lo=10 ** -0.5, hi=1e5)
+    voa_lin = ctx.real('out_voa_lin', lo=1, hi=100)
+    amp.effective_gain = 10 * log10(ctx, g_lin)
+    amp.out_voa = 10 * log10(ctx, voa_lin)
+    invoa_lin = 1.0
+    if sym_invoa:
+        invoa_lin = ctx.real('in_voa_lin', lo=1, hi=100)
+        amp.in_voa = 10 * log10(ctx, invoa_lin)
+    if sym_pmax:
+        pmax_mw = ctx.real('pmax_mw', lo=1, hi=1000)
+        amp.params.p_max = 10 * log10(ctx, pmax_mw)
+    else:
+        pmax_mw = 10 ** (amp.params.p_max / 10)
+    freqs = FREQS[:k]
+    labels = [f'ch{i}' for i in range(k)]
+    if oob:
+        freqs = [190.0e12] + freqs      # below f_min of every C-band model
+        labels = ['oob'] + labels
+    n = len(freqs)
+    si = make_si(ctx, n, freqs=freqs, labels=labels, pmax=0.1)
+    pre = snap(si)
+    out = amp(si)
+    idx = list(range(1, n)) if oob else list(range(n))
+    ctx.prove('edfa:in_band_channels_only', out.number_of_channels == k and
+              all(out.frequency[j] == pre['f'][i] and out.label[j] == pre['label'][i] for j, i in enumerate(idx)))
+    # ---- oracle
+    pin_tot = 0
+    for i in idx:
+        pin_tot = pin_tot + pre['p'][i] / invoa_lin
+    g_clamp = pmax_mw / (pin_tot * 1e3)
+    g_eff = g_lin if bool(g_lin <= g_clamp) else g_clamp
+    if 'C04' in props:
+        ctx.prove('edfa:effective_gain=min(set,pmax-pin)', approx(10 ** (amp.effective_gain / 10), g_eff, 1e-11))
+        ctx.prove('edfa:signal_output_within_pmax', le(10 ** (amp.effective_gain / 10) * pin_tot * 1e3, pmax_mw * (1 + 1e-11)))
+        ctx.prove('edfa:gain_not_raised', le(10 ** (amp.effective_gain / 10), g_lin * (1 + 1e-11)))
+    for j, i in enumerate(idx):
+        nf_lin = 10 ** (amp.nf[j] / 10)
+        ase = H_PLANCK * pre['f'][i] * pre['baud'][i] * nf_lin
+        pin = pre['p'][i] / invoa_lin
+        if 'C04' in props:
+            ctx.prove(f'edfa:pout=(pin+ase)*G/voa[{i}]', approx(out._pch[j] * voa_lin, (pin + ase) * g_eff, 1e-9))
+            ctx.prove(f'edfa:ase_added_is_hfB.NF[{i}]', approx(out.ase[j] * voa_lin, (pin * pre['a'][i] + ase) * g_eff, 1e-9))
+            ctx.prove(f'edfa:signal_amplified_by_gain[{i}]', approx(out.signal[j] * voa_lin, pin * pre['s'][i] * g_eff, 1e-9))
+            ctx.prove(f'edfa:nli_amplified_by_gain[{i}]', approx(out.nli[j] * voa_lin, pin * pre['n'][i] * g_eff, 1e-9))
+            ctx.prove(f'edfa:reported_pch_out_dbm[{i}]', approx_db(amp.pch_out_dbm[j], 10 * log10(ctx, out._pch[j] * 1e3)))
+    if 'C01' in props:
+        c01_obligations(ctx, out, 'edfa')
+    if 'C02' in props:
+        c02_obligations(ctx, pre, out, 'edfa', 'amp', idx=idx)
+
+
+EDFA_QUICK = ['std_medium_gain', 'std_fixed_gain', 'high_detail_model_example', 'openroadm_ila_low_noise',
+              'openroadm_mw_mw_preamp', 'openroadm_mw_mw_booster', 'medium+low_gain']
+
+
+# ------------------------------------------------------------------------------------------------------ Transceiver
+
+def h_trx(ctx, k, n_added, props, repeat=1):
+    """real Transceiver.__call__ + update_snr: the reported figures obey 1/GSNR = 1/OSNR_ASE + 1/SNR_NLI, the added
+    OSNRs (tx, add/drop) are counted exactly once, and repeated update_snr calls do not accumulate"""
+    from gnpy.core.elements import Transceiver
+    symbolic_ctors(ctx)
+    trx = Transceiver(uid='trx')
+    bauds = BAUDS[:k]
+    si = make_si(ctx, k, freqs=FREQS[:k], baud_list=bauds, slot_list=[75e9] * k, spacing=100e9)
+    for i in range(k):
+        ctx.assume(gt(si._ase_ratio[i], 0))
+        ctx.assume(gt(si._nli_ratio[i], 0))
+    pre = snap(si)
+    trx(si)
+    L = lambda x_db: 10 ** (x_db / 10)      # noqa
+    for i in range(k):
+        s, a, n = pre['s'][i], pre['a'][i], pre['n'][i]
+        ctx.prove(f'trx:raw:inverse_sum[{i}]', approx(1 / L(trx.snr[i]), 1 / L(trx.osnr_ase[i]) + 1 / L(trx.osnr_nli[i]), 1e-11))
+        ctx.prove(f'trx:raw:osnr_ase=s/a[{i}]', approx(L(trx.osnr_ase[i]) * a, s, 1e-11))
+        ctx.prove(f'trx:raw:osnr_nli=s/n[{i}]', approx(L(trx.osnr_nli[i]) * n, s, 1e-11))
+        ctx.prove(f'trx:raw:gsnr=s/(a+n)[{i}]', approx(L(trx.snr[i]) * (a + n), s, 1e-11))
+        ctx.prove(f'trx:raw:01nm_scaling[{i}]', approx(L(trx.snr_01nm[i]) * 12.5e9, L(trx.snr[i]) * bauds[i], 1e-11))
+        ctx.prove(f'trx:raw:osnr_01nm_scaling[{i}]', approx(L(trx.osnr_ase_01nm[i]) * 12.5e9, L(trx.osnr_ase[i]) * bauds[i], 1e-11))
+    if n_added:
+        for r in range(repeat):
+            added_lin = [ctx.pos_real(f'added_osnr{r}_{j}') for j in range(n_added)]    # linear OSNR in 0.1 nm
+            added_db = [10 * log10(ctx, x) for x in added_lin]
+            args = list(added_db)
+            if r == 0 and n_added >= 2:
+                args.insert(1, None)        # a None entry (no add/drop contribution) must be ignored
+            trx.update_snr(*args)
+        inv_added = 0
+        for x in added_lin:                 # only the last call counts
+            inv_added = inv_added + 1 / x
+        for i in range(k):
+            s, a, n = pre['s'][i], pre['a'][i], pre['n'][i]
+            # 1/snr_01nm = 1/raw_01nm + sum 1/osnr_k   (everything referred to 0.1 nm = 12.5 GHz)
+            raw01 = s / (a + n) * bauds[i] / 12.5e9
+            ctx.prove(f'trx:update:gsnr_01nm_counts_each_once[{i}]', approx(1 / L(trx.snr_01nm[i]), 1 / raw01 + inv_added, 1e-10))
+            rawo01 = s / a * bauds[i] / 12.5e9
+            ctx.prove(f'trx:update:osnr_01nm_counts_each_once[{i}]', approx(1 / L(trx.osnr_ase_01nm[i]), 1 / rawo01 + inv_added, 1e-10))
+            # signal-bandwidth figures: the added noise is scaled to the signal bandwidth
+            ctx.prove(f'trx:update:gsnr_bw[{i}]', approx(1 / L(trx.snr[i]), (a + n) / s + inv_added * bauds[i] / 12.5e9, 1e-10))
+            ctx.prove(f'trx:update:consistent_01nm[{i}]', approx(L(trx.snr_01nm[i]) * 12.5e9, L(trx.snr[i]) * bauds[i], 1e-10))
+            ctx.prove(f'trx:update:raw_kept[{i}]', approx(L(trx.raw_snr[i]) * (a + n), s, 1e-11))
